@@ -627,7 +627,10 @@ def rule_locals_do_not_shadow_arguments(repo: Repo, rep, rule: str = "R4.17") ->
     if smn is None:
         raise AnalysisError(f"{rule}: anchor vanished: NameSanitizer.sanitize_method_name")
     # names the sanitiser refuses (gives a trailing underscore): the class-level sets it consults
-    consulted = {x.attr for c in ast.walk(smn.node) if isinstance(c, ast.Compare) and isinstance(c.ops[0], ast.In) for x in ast.walk(c.comparators[0]) if isinstance(x, ast.Attribute)}
+    # ... in the function itself or in a helper of the class it hands the name to (`return NameSanitizer._protect_snake_case_name(method)`)
+    bodies = [smn.node] + [ns.methods[c.func.attr].node for c in ast.walk(smn.node) if isinstance(c, ast.Call) and isinstance(c.func, ast.Attribute)
+                           and c.func.attr in ns.methods and ns.methods[c.func.attr] is not smn]
+    consulted = {x.attr for b in bodies for c in ast.walk(b) if isinstance(c, ast.Compare) and isinstance(c.ops[0], ast.In) for x in ast.walk(c.comparators[0]) if isinstance(x, ast.Attribute)}
     refused: Set[str] = set()
     for st in ns.node.body:
         if isinstance(st, (ast.Assign, ast.AnnAssign)):
